@@ -180,7 +180,7 @@ func (h *Handler) MinuteTicker(now time.Time) error {
 }
 
 func configChanged(config SubnetConfig, current SubnetConfig) bool {
-	if config.LAN.Addr() != current.LAN.Addr() ||
+	if config.LAN.Masked() != current.LAN.Masked() || // whole prefix: a different length is a different subnet
 		config.DefaultGW != current.DefaultGW ||
 		config.DNSServer != current.DNSServer ||
 		config.DHCPServer != current.DHCPServer ||
